@@ -324,16 +324,16 @@ Definition monitor_ok (k : case) : bool :=
                && forallb (history_ok k) (k_runs k)
   end.
 
-(** observation flag 100: a PodGroup of a pod WITHOUT owner reference was not restored after it was overwritten
+(** flag 1 (known finding C18-ownerless-pod-podgroup-frozen): a PodGroup of a pod WITHOUT owner reference was not restored after it was overwritten
     or deleted - the behaviour of C18_ownerless_pod_frozen,
-    outside clause (5); counted in the evidence, never an alarm *)
+    outside clause (5) *)
 Definition case_flags (k : case) : list nat :=
   if existsb (fun r => match r_fresh r with
                        | None => false
                        | Some f => existsb (fun ng => existsb (String.eqb (fst ng)) (ownerless_groups k f)
                                                       && negb (group_restored k r ng)) (fr_final f)
                        end) (k_runs k)
-  then [100%nat] else [].
+  then [1%nat] else [].
 Definition run_flags (cs : list (nat * case)) : list (nat * list nat) :=
   filter (fun p => negb (Nat.eqb (List.length (snd p)) 0)) (map (fun c => (fst c, case_flags (snd c))) cs).
 
